@@ -5,6 +5,7 @@ package c08drv
 
 import (
 	"fmt"
+	"regexp"
 	"sort"
 	"strings"
 	"time"
@@ -57,6 +58,10 @@ func obsList(l z.ZogIssueList, dest any, extra ...any) string {
 	}
 	return fmt.Sprintf("issues=%v distinct=%v dest=%+v extra=%v", parts, distinct, dest, extra)
 }
+
+// freshNames numbers the parameter names of driver 13 so that every Setup introduces names the process has not met
+var freshNames int
+var freshNameRe = regexp.MustCompile(`unit_[0-9]+_`)
 
 type user struct {
 	Name string
@@ -203,6 +208,17 @@ func Drivers(nthreads int) []Driver {
 				var n string
 				l := z.String().Min(5).Parse("abc", &n, z.WithCtxValue("lang", "it"))
 				*out = append(*out, obsList(l, n))
+			}}
+		}},
+		{"13 tests carrying parameter names of their own (Params option), never seen before in this process", nthreads, func() *Shared {
+			freshNames++
+			pa := map[string]any{"min": 5, fmt.Sprintf("unit_%d_a", freshNames): "chars"}
+			pb := map[string]any{"gt": 18, fmt.Sprintf("unit_%d_b", freshNames): "years"}
+			s := z.Struct(z.Schema{"name": z.String().Min(5, z.Params(pa)), "age": z.Int().GT(18, z.Params(pb))})
+			return &Shared{Owned: []any{pa, pb}, Thread: func(i int, out *[]string, yield func()) {
+				var d user
+				m := s.Parse(map[string]any{"name": []string{"ab", "abcdefg"}[i%2], "age": []int{3, 30}[(i/2+i)%2]}, &d)
+				*out = append(*out, freshNameRe.ReplaceAllString(obsMap(m, d), "unit_N_")) // the numbering is not part of the observation
 			}}
 		}},
 		{"9 shared slice schema on long slices (12+ items), issues at high indexes", nthreads, func() *Shared {
